@@ -363,6 +363,45 @@ def mutable_default_rule(repo, rep, modnames):
     if n == 0:
         rep.holds('R-PURE', 'R-PURE::%s::no-mutable-defaults' % '+'.join(modnames), '%s:1' % repo.module(modnames[0]).relpath,
                   'no function of %s has a mutable default argument' % ', '.join(modnames))
+    # the same sharing through the class body: `class C: items = {}` is ONE dict for every instance that does not assign its own in __init__
+    nclass = 0
+    for mn in modnames:
+        m = repo.module(mn)
+        for cname, cls in sorted(m.classes.items()):
+            for st in cls.node.body:
+                if not (isinstance(st, ast.Assign) and len(st.targets) == 1 and isinstance(st.targets[0], ast.Name)):
+                    continue
+                d = st.value
+                if not (isinstance(d, (ast.Dict, ast.List, ast.Set)) or (isinstance(d, ast.Call) and isinstance(d.func, ast.Name) and d.func.id in ('dict', 'list', 'set', 'defaultdict', 'OrderedDict'))):
+                    continue
+                attr = st.targets[0].id
+                nclass += 1
+                key = 'R-PURE::%s::%s::class-attribute(%s)' % (m.relpath, cname, attr)
+                init = cls.methods.get('__init__')
+                own = init is not None and any(isinstance(x, ast.Assign) and any(isinstance(t, ast.Attribute) and t.attr == attr and isinstance(t.value, ast.Name) and t.value.id == 'self'
+                                                                                 for t in x.targets) for x in ast.walk(init.node))
+                writes = []
+                for mn2 in modnames:
+                    for g in repo.module(mn2).all_functions():
+                        for x in ast.walk(g.node):
+                            tg = []
+                            if isinstance(x, ast.Assign):
+                                tg = x.targets
+                            elif isinstance(x, ast.AugAssign):
+                                tg = [x.target]
+                            for t in tg:
+                                if isinstance(t, ast.Subscript) and isinstance(t.value, ast.Attribute) and t.value.attr == attr:
+                                    writes.append((g, x))
+                            if isinstance(x, ast.Call) and isinstance(x.func, ast.Attribute) and isinstance(x.func.value, ast.Attribute) and x.func.value.attr == attr \
+                                    and x.func.attr in ('append', 'extend', 'insert', 'pop', 'remove', 'clear', 'update', 'setdefault', 'add', 'discard', 'popitem'):
+                                writes.append((g, x))
+                if own or not writes:
+                    rep.holds('R-PURE', key, '%s:%d' % (m.relpath, st.lineno), 'class-level container %s.%s is %s' % (cname, attr, 'replaced by an own one in __init__' if own else 'never updated'))
+                else:
+                    g, x = writes[0]
+                    rep.violated('R-PURE', key, where(g, x), '%s.%s is a container created once in the class body and shared by every instance (no `self.%s = ...` in __init__); '
+                                 '`%s` in %s updates it through one instance: every other %s sees the entries (a second grid read from file rewrites the first one\'s table)' % (
+                                     cname, attr, attr, stmt_text(x)[:60], g.qualname, cname), expected='self.%s = {} in __init__' % attr, actual='%s = %s in the class body' % (attr, stmt_text(d)[:20]))
 
 # Integrated Survey Grid (NSW): zones 54, 55, 56 with sub-zones 1-3 and zone 57 sub-zone 2, written zone*10 + sub-zone
 ISG_ZONES = (541, 542, 543, 551, 552, 553, 561, 562, 563, 572)
@@ -417,11 +456,20 @@ def division_rule(repo, rep, funcs, ranges, excepted=None, families=()):
                 for i2 in range(i1 + 1, len(zeroable)):
                     cands.append({zeroable[i1][1]: 0.0, zeroable[i2][1]: 0.0})
             byname = dict(syms)
+            allfam = {}
             for fam in families:
                 present = [n for n in fam if n in byname]
                 for i1 in range(len(present)):
                     for i2 in range(i1 + 1, len(present)):
                         cands.append({byname[present[i2]]: mid[byname[present[i1]]]})
+                        if byname[present[i2]] not in allfam and byname[present[i1]] not in allfam:
+                            allfam[byname[present[i2]]] = mid[byname[present[i1]]]
+            if len(allfam) > 1:
+                cands.append(dict(allfam))          # every family coincident at once (same zone AND same easting, ...)
+                for k_ in list(allfam):
+                    for k2_ in list(allfam):
+                        if k_ < k2_:
+                            cands.append({k_: allfam[k_], k2_: allfam[k2_]})
             for cand in cands:
                 env = dict(mid)
                 env.update(cand)
@@ -531,6 +579,34 @@ def truncation_rule(repo, rep, key_prefix, what):
                      'int() gives %d (%s)' % (txt, exact, dbl, int(dbl), ', '.join('%s=%s' % (k, float(v.as_fraction()) if v.as_fraction().denominator != 1 else int(v.as_fraction()))
                                                                              for k, v in sorted(consts.items())[:5])),
                      expected='round() to the nearest whole number, or integer arithmetic', actual=txt)
+
+
+
+PARTIAL_LINALG = {'cholesky': 'needs a positive DEFINITE matrix (raises LinAlgError for a singular one)', 'inv': 'needs a non-singular matrix',
+                  'solve': 'needs a non-singular matrix', 'tensorinv': 'needs a non-singular matrix'}
+
+
+def partial_call_rule(repo, rep, funcs, what):
+    """the covariance matrices of the property may be singular (rank-deficient input covariance, parameter uncertainties of zero): functions
+    that are only defined for definite / non-singular matrices (numpy.linalg.cholesky, inv, solve) must not be applied to them.
+    funcs: [(module, qualname)]"""
+    for mod, q in funcs:
+        f = repo.func(mod, q)
+        key = 'R-DOMAIN::%s::%s::partial-linalg' % (f.module.relpath, q)
+        hits = []
+        for n in ast.walk(f.node):
+            if isinstance(n, ast.Call) and isinstance(n.func, ast.Attribute) and n.func.attr in PARTIAL_LINALG:
+                base = stmt_text(n.func.value)
+                if base.endswith('linalg') or base in ('np', 'numpy', 'la', 'LA', 'scipy.linalg'):
+                    hits.append(n)
+            if isinstance(n, ast.Call) and isinstance(n.func, ast.Name) and n.func.id in PARTIAL_LINALG and n.func.id in f.module.imports:
+                hits.append(n)
+        if not hits:
+            rep.holds('R-DOMAIN', key, where(f, f.node), '%s applies no function that is undefined for singular matrices to %s' % (q, what))
+        for n in hits[:3]:
+            name = n.func.attr if isinstance(n.func, ast.Attribute) else n.func.id
+            rep.violated('R-DOMAIN', key, where(f, n), '`%s`: numpy.linalg.%s %s, and %s may be singular (a rank-deficient input covariance, parameter uncertainties of zero): '
+                         'the call raises LinAlgError where the product J Q J^T is defined' % (stmt_text(n)[:60], name, PARTIAL_LINALG[name], what), expected='matrix products only', actual=stmt_text(n)[:80])
 
 
 def tm_division_rules(repo, rep):
